@@ -1,7 +1,7 @@
 SPECIFICATION Spec
 CONSTANTS
   Names <- NamesQ
-  Types = {1, 2, 4, 5, 127}
+  Types = {1, 2, 4, 5, 9, 12, 127}
   Seqs <- SeqsQ
   Expect = {1, 4}
   PeekReadFull = TRUE
